@@ -58,8 +58,22 @@ func init() {
 					for len(g.waitingSet()) < 4 && time.Now().Before(dl) {
 						time.Sleep(50 * time.Microsecond)
 					}
-					if len(g.waitingSet()) < 4 {
-						die("stress: gates not reached: %v", g.waitingSet())
+					if ws := g.waitingSet(); len(ws) < 4 {
+						started := 0
+						for _, k := range ws {
+							if len(k) > 15 && k[:15] == "srv.start.begin" {
+								started++
+							}
+						}
+						if started == 2 {
+							// both start goroutines are at their hooks, RequestStop has been called, yet no waiter reached shutdown(): the stop was lost
+							g.openAll()
+							emit(Result{ID: fmt.Sprintf("iter%d", it), OK: false, Kind: "deadlock",
+								Detail: fmt.Sprintf("iteration %d cycle %d: RequestStop was called right after Run but 10 s later no waiter goroutine has begun shutdown (lost wake-up); hooks reached: %v", it, cyc, ws),
+								Case:   map[string]interface{}{"iterations": it + 1, "mode": cs.Mode, "cycles": cs.Cycles}})
+							return
+						}
+						die("stress: gates not reached: %v", ws)
 					}
 					// release ListenAndServe and Shutdown of each server (almost) together
 					order := rng.Intn(2)
